@@ -97,6 +97,27 @@ impl Property for C17 {
             push(false, [&[0u8][..], &s[..]].concat());
             push(false, [&s[..], &[0u8][..]].concat());
         }
+        // secrets whose 32 bytes look like TEXT in some encoding (hex digits, base64 symbols, decimal digits,
+        // printable ASCII, UTF-8): valid scalars / seeds all the same
+        for t in [
+            &b"0123456789abcdef0123456789abcdef"[..],
+            b"0123456789ABCDEF0123456789ABCDEF",
+            b"77777777777777777777777777777777",
+            b"ffffffffffffffffffffffffffffffff",
+            b"00000000000000000000000000000001",
+            b"0x0123456789abcdef0123456789abcd",
+            b"QUJDREVGR0hJSktMTU5PUFFSU1RVVldY",
+            b"-_-_-_-_-_-_-_-_-_-_-_-_-_-_-_-_",
+            b"the quick brown fox jumps over!!",
+            b"enr:-IS4QHCYrYZbAKWCBRlAy5zzaDZX",
+            b"12345678901234567890123456789012",
+            b"                                ",
+            b"\"secret-key-in-quotes-32-bytes!\"",
+        ] {
+            push(false, t.to_vec());
+            push(true, t.to_vec());
+        }
+        push(false, "\u{20ac}".repeat(10).as_bytes().iter().copied().chain([b'!', b'!']).collect());
         // every pool secret (edge scalars, mined coordinates, ed25519 seeds whose public key has a rare shape)
         for s in crate::keys::pool().ed.iter() {
             push(true, s.to_vec());
